@@ -19,22 +19,24 @@ import (
 // httpSpec is a request described by construction, so that its class is known
 // without looking at what the server does.
 type httpSpec struct {
-	Garbage  []byte `json:"garbage,omitempty"` // raw bytes instead of a structured request
-	Method   string `json:"method"`
-	Path     string `json:"path"`
-	Version  string `json:"version"`
-	KeyMode  int    `json:"key_mode"`  // 0 none 1 exact 2 prefix 3 suffix 4 case-variant 5 wrong 6 empty 7 exact+trailing-space
-	KeyName  int    `json:"key_name"`  // header name spelling
-	LenMode  int    `json:"len_mode"`  // 0 exact 1 missing 2 zero 3 oversize 4 non-numeric 5 negative
-	Body     string `json:"body"`      // action list
-	BodyKind int    `json:"body_kind"` // 0 put(id) 1 invalid action 2 empty 3 body with an embedded CRLF 4 process-executing action + put(id)
-	ID       int    `json:"id"`
-	Frags    []int  `json:"frags"`              // fragment sizes (cycled); empty = all at once
-	GapsMs   []int  `json:"gaps_ms"`            // pause before each fragment
-	CloseAt  int    `json:"close_at"`           // close the connection after this many bytes (0 = read the response)
-	Wait     bool   `json:"wait"`               // wait for this exchange to end before the next event
-	Probe    bool   `json:"probe,omitempty"`    // sent while the UI is busy and the hand-over queue is full: still to be answered soon
-	StallMs  int    `json:"stall_ms,omitempty"` // the client sends its request and then does not read for this long
+	Garbage   []byte `json:"garbage,omitempty"` // raw bytes instead of a structured request
+	Method    string `json:"method"`
+	Path      string `json:"path"`
+	Version   string `json:"version"`
+	KeyMode   int    `json:"key_mode"`  // 0 none 1 exact 2 prefix 3 suffix 4 case-variant 5 wrong 6 empty 7 exact+trailing-space
+	KeyName   int    `json:"key_name"`  // header name spelling
+	LenMode   int    `json:"len_mode"`  // 0 exact 1 missing 2 zero 3 oversize 4 non-numeric 5 negative
+	Body      string `json:"body"`      // action list
+	BodyKind  int    `json:"body_kind"` // 0 put(id) 1 invalid action 2 empty 3 body with an embedded CRLF 4 process-executing action + put(id)
+	ID        int    `json:"id"`
+	Frags     []int  `json:"frags"`                // fragment sizes (cycled); empty = all at once
+	GapsMs    []int  `json:"gaps_ms"`              // pause before each fragment
+	CloseAt   int    `json:"close_at"`             // close the connection after this many bytes (0 = read the response)
+	Wait      bool   `json:"wait"`                 // wait for this exchange to end before the next event
+	Probe     bool   `json:"probe,omitempty"`      // sent while the UI is busy and the hand-over queue is full: still to be answered soon
+	StallMs   int    `json:"stall_ms,omitempty"`   // the client sends its request and then does not read for this long
+	TrailCRLF bool   `json:"trail_crlf,omitempty"` // the body (kind 0) ends in CRLF, counted in Content-Length
+	PadKB     int    `json:"pad_kb,omitempty"`     // the body (kind 0) carries a change-header(...) of this many KiB (below the 1 MiB bound)
 }
 
 const c16Key = "s3cr3t-Key"
@@ -75,6 +77,12 @@ func (h *httpSpec) build(keyConfigured bool) (req []byte, class string, authoris
 		body = "put(" + h.marker() + ")"
 		if h.CloseAt < 0 {
 			body += "+up"
+		}
+		if h.PadKB > 0 {
+			body += "+change-header(" + strings.Repeat("x", clampInt(h.PadKB, 1, 900)*1024) + ")"
+		}
+		if h.TrailCRLF {
+			body += "\r\n"
 		}
 	case 1:
 		body = "no-such-action(" + h.marker() + ")"
@@ -206,6 +214,12 @@ func genHTTPSpec(r *zsim.Rng, id int) httpSpec {
 		h.Garbage = b
 	}
 	h.KeyName = r.Intn(4)
+	if h.Method == "POST" && h.bodyKind() == 0 && h.LenMode == 0 && len(h.Garbage) == 0 {
+		h.TrailCRLF = r.Chance(1, 6)
+		if r.Chance(1, 10) {
+			h.PadKB = []int{1, 63, 64, 65, 70, 300}[r.Intn(6)]
+		}
+	}
 	if r.Chance(1, 2) {
 		for i := r.Range(1, 5); i > 0; i-- {
 			h.Frags = append(h.Frags, []int{1, 2, 7, 20, 100}[r.Intn(5)])
@@ -533,6 +547,10 @@ func runC16(c *runCtx) {
 			}
 		}
 		if total > 9000 {
+			stalled = true
+		}
+		if res.spec.PadKB > 0 && len(res.spec.Frags) > 0 {
+			// hundreds of kilobytes a few bytes at a time: may take longer than the server waits
 			stalled = true
 		}
 		c.count("status."+strconv.Itoa(status), 1)
